@@ -225,6 +225,11 @@ func (l *Logger) Info(msg string)  { l.add("I", msg) }
 func (l *Logger) Warn(msg string)  { l.add("W", msg) }
 func (l *Logger) Error(msg string) { l.add("E", msg) }
 func (l *Logger) Fatal(msg string) { l.add("F", msg) }
+func (l *Logger) Snapshot() []string {
+	l.mu.Lock()
+	defer l.mu.Unlock()
+	return append([]string(nil), l.Lines...)
+}
 func (l *Logger) Drain() []string {
 	l.mu.Lock()
 	defer l.mu.Unlock()
